@@ -10,3 +10,7 @@ def run(ctx):
     except ImportError:
         return
     sweeps.c16_fallthrough(ctx)
+    # behaviour of the directed loop shapes against the reference semantics (running off the end prints the next function's output)
+    from diffrun import Cfg
+    units = [(src, [Cfg((str(a), str(b)), w, 300, False) for a in (0, 1, 5, 9) for b in (0, 3, 7) for w in (2, 4)]) for src in sweeps.C16_DIRECTED]
+    sweeps.diff_sweep(ctx, 'directed loop shapes (continue/break in bare nested blocks, bodies that never complete), each function followed by another', units, extra=sweeps.halts_extra(ctx))
